@@ -108,6 +108,14 @@ class C06(Check):
             if rng.random() < 0.3:
                 res[perm[2]] = 12.0
             cls = "pair"
+        if not thin and rng.random() < 0.06:
+            # one-voxel-thick volume whose thin axis has the finest voxels:
+            # chunk sizes shrink along an axis that is never downscaled
+            d = rng.randrange(3)
+            size = [rng.choice([9, 17, 37, 40]) for _ in range(3)]
+            size[d] = 1
+            res = [1000.0, 1000.0, 1000.0]
+            res[d] = rng.choice([500.0, 250.0, 125.0])
         scale = rng.choice([1.0, 1.0, 10.0, 1000.0, 0.5])
         res = [v * scale for v in res]
         method = rng.choice(["average", "average", "majority", "stride"])
